@@ -149,6 +149,20 @@ def known_negdiv(rows):
                 report_known(PID, f"{k['what']} (witness -7 / 2: ts prints {still[0]['ts0']}, wasm prints {still[0]['wasm0']})")
 
 
+def known_vec_i31(d):
+    """KNOWN-FINDING bookkeeping: Vec<int> elements beyond 31 bits, reported as long as the witness still disagrees."""
+    for k in known_findings(PID):
+        if k.get("region") == "vec-int-beyond-i31":
+            src = open(os.path.join(VERIF, k["witness"])).read()
+            r = pc.run_programs(d, "veci31", [{"origin": "finding:vec-int-beyond-i31", "entry": "Main", "sources": {"Main": src}}], [31], jobs=1)[0]
+            b = r.get("builds", {}).get("opt:31", {})
+            w, t = (b.get("wasm") or {}).get("out"), (b.get("ts") or {}).get("out")
+            if w != t:
+                report_known(PID, f"{k['what']} (witness: wasm prints {w}, ts prints {t})")
+            else:
+                log("[c04] the open finding vec-int-beyond-i31 did not show in this run: both back ends print " + str(w))
+
+
 def run(tier):
     t0 = time.time()
     d = outdir(PID)
@@ -177,6 +191,7 @@ def run(tier):
         log(v.out[-3000:])
         tool_failure(f"ArithTrace failed: {v.error}")
     known_negdiv(rows)
+    known_vec_i31(d)
     # 2b. string literals over a chunk alphabet (ordinary characters, every escape next to every other chunk,
     #     backtick, `${`): both back ends must print the value Strings.tla assigns to the literal
     scases = string_cases(tier)
